@@ -560,7 +560,14 @@ def _run_property(ctx, spec):
     # 4. CLI-level checks for the glue outside the model
     if viol_payload is None and spec.get("cli"):
         for fn in spec["cli"]:
-            res = fn(ctx, broken is not None)
+            try:
+                res = fn(ctx, broken is not None)
+            except Exception as e:   # output the runner cannot even parse (NaN, missing columns, ...) is a result that differs, not a crash
+                import traceback
+                res = {"summary": {"evaluations": 0, "nontrivial": 0},
+                       "violation": {"kind": "runner-exception", "what": f"{fn.__name__} could not interpret what the code produced: {e!r}",
+                                     "traceback": traceback.format_exc()[-1500:]},
+                       "no_input": True}
             coverage.setdefault("cli", {})[fn.__name__] = res["summary"]
             coverage["evaluations"] += res["summary"].get("evaluations", 0)
             coverage["distinct_nontrivial"] += res["summary"].get("nontrivial", 0)
